@@ -208,18 +208,58 @@ Lemma saga_hook_nil_l fuel : sg_hook P = true -> sg_lambda NM P = None ->
   forall x, fst (fst (saga NM SF RJ SHK P fuel x0)) <> SgHook x.
 Proof. pose proof (saga_ok fuel) as K. cbv zeta in K. apply K. Qed.
 
-(* the coded test and the test over all coordinates agree when no coordinate is zero in
-   both iterates (then the joint iterator visits every index) *)
-Lemma sg_prefix_full (xs x1 : vec) :
-  Forall (fun p => eqb NM (fst p) (zero NM) && eqb NM (snd p) (zero NM) = false) (combine xs x1) ->
-  sg_prefix NM xs x1 = combine xs x1.
+(* the coded walk (HEAD 494d9f3) IS the walk over all coordinates, unconditionally *)
+Lemma all_coords_cons a b (xs x1 : vec) :
+  all_coords NM (a :: xs) (b :: x1) = (a, b) :: all_coords NM xs x1.
 Proof.
-  revert x1. induction xs as [|a xs IH]; intros [|b x1] H; simpl; auto.
-  inversion H as [|? ? Hab Hr]; subst. simpl in Hab. rewrite Hab. f_equal. apply IH; exact Hr.
+  unfold all_coords. cbn [length]. rewrite <- Nat.succ_max_distr. cbn [seq map nth].
+  f_equal. rewrite <- seq_shift, map_map. reflexivity.
+Qed.
+Lemma all_coords_nil_l (x1 : vec) : all_coords NM [] x1 = map (fun b => (zero NM, b)) x1.
+Proof.
+  unfold all_coords. cbn [length Nat.max].
+  induction x1 as [|b x1 IH]; [reflexivity|].
+  cbn [length seq map nth]. f_equal. rewrite <- seq_shift, map_map.
+  rewrite <- IH. apply map_ext. intros i. destruct i; reflexivity.
+Qed.
+Lemma all_coords_nil_r (xs : vec) : all_coords NM xs [] = map (fun a => (a, zero NM)) xs.
+Proof.
+  unfold all_coords. rewrite Nat.max_0_r.
+  induction xs as [|a xs IH]; [reflexivity|].
+  cbn [length seq map nth]. f_equal. rewrite <- seq_shift, map_map.
+  rewrite <- IH. apply map_ext. intros i. destruct i; reflexivity.
+Qed.
+Lemma sg_joint_all (xs x1 : vec) : sg_joint NM xs x1 = all_coords NM xs x1.
+Proof.
+  revert x1. induction xs as [|a xs IH]; intros x1.
+  { rewrite all_coords_nil_l. destruct x1; reflexivity. }
+  destruct x1 as [|b x1].
+  { rewrite all_coords_nil_r. reflexivity. }
+  cbn [sg_joint]. rewrite all_coords_cons, IH. reflexivity.
+Qed.
+Lemma sg_eval_stop_all_agree (xs x1 : vec) eps :
+  sg_eval_stop NM xs x1 eps = sg_eval_stop_all NM xs x1 eps.
+Proof. unfold sg_eval_stop, sg_eval_stop_all. rewrite sg_joint_all. reflexivity. Qed.
+
+(* equal dimensions (always the case in saga: xs and x1 are copies of the same buffer): the
+   walk is the plain zip *)
+Lemma sg_joint_combine (xs x1 : vec) : length xs = length x1 -> sg_joint NM xs x1 = combine xs x1.
+Proof.
+  revert x1. induction xs as [|a xs IH]; intros [|b x1] H; try discriminate H; [reflexivity|].
+  cbn [sg_joint combine]. f_equal. apply IH. injection H as H; exact H.
 Qed.
 Lemma sg_eval_stop_full_agree (xs x1 : vec) eps :
-  Forall (fun p => eqb NM (fst p) (zero NM) && eqb NM (snd p) (zero NM) = false) (combine xs x1) ->
-  sg_eval_stop NM xs x1 eps = sg_eval_stop_full NM xs x1 eps.
-Proof. intros H. unfold sg_eval_stop, sg_eval_stop_full. rewrite sg_prefix_full; auto. Qed.
+  length xs = length x1 -> sg_eval_stop NM xs x1 eps = sg_eval_stop_full NM xs x1 eps.
+Proof. intros H. unfold sg_eval_stop, sg_eval_stop_full. rewrite sg_joint_combine; auto. Qed.
+
+(* the stop theorem at full strength: the test over ALL coordinates holds at the returned point *)
+Lemma saga_stop_all_l fuel x tr el :
+  saga NM SF RJ SHK P fuel x0 = (SgConv x, tr, el) ->
+  exists xs d rest, el = (xs, x, d, true) :: rest /\ xs = last_it rest /\ all_go rest /\
+    sg_eval_stop_all NM xs x (sg_tol NM P) = SStop d.
+Proof.
+  intros H. destruct (saga_stop_l fuel x tr el H) as (xs & d & rest & E1 & E2 & E3 & E4).
+  exists xs, d, rest. ssplit; auto. rewrite <- sg_eval_stop_all_agree. exact E4.
+Qed.
 
 End PS.
